@@ -179,7 +179,7 @@ def wtsFields : Fields → Slots → Bool
     | [] => false
     | o :: s' =>
       (match o with
-       | none => true
+       | none => !(f.ser == .always && f.required && f.mode == .plain)   -- such a member is not an `Option` in Rust
        | some v => f.ser != .never && wts t v) && wtsFields rest s'
 def wtsAlt : Fields → Nat → Val → Bool
   | .nil, _, _ => false
